@@ -14,6 +14,7 @@ What holds: the `_partial` theorem (no reply with a re-forwardable status arrive
 import SquidModel.Fwd.RetryLemmas
 import SquidModel.Fwd.RetryMethods
 import SquidModel.Fwd.RetrySim
+import SquidModel.Fwd.RetrySimLemmas
 
 namespace SquidModel.C07
 open SquidModel.Fwd.Retry SquidModel.Gen
@@ -145,6 +146,23 @@ theorem race_retry_uses_fresh_connection (c : Cfg) (r : Req) (s : St) (d : Nat) 
       Out.connect d ∈ (step c r s (.serverFailed .zero dr)).2 ∧
       (step c r s (.serverFailed .zero dr)).1.allowPconn = false) :=
   race_retry_fresh c r s d dr hph hrace hrec
+
+/-- The scenario simulation the model driver runs for the end-to-end tie is a `run` over the event list
+`scenarioTrace`: the history theorems speak about exactly what the driver predicts. -/
+theorem scenario_is_a_history (c : Cfg) (r : Req) (bodySent : Bool) (addrs : List Nat) (prime : Bool) (faults : List Fault) :
+    scenario c r bodySent addrs prime faults =
+      run c r (init (if prime then (addrs.filter alive).take 1 else [])) (scenarioTrace c r bodySent addrs prime faults) :=
+  scenario_eq_run c r bodySent addrs prime faults
+
+/-- Scenario-level form of the partial theorem (every configuration with the generated status lists, address list, primed
+pconn, body mode and fault script of any length): a request whose method is neither safe nor idempotent arrives at most
+once unless one of the scripted replies (whole or truncated) carries a re-forwardable status. -/
+theorem scenario_non_idempotent_at_most_once_partial (maxTries : Nat) (onerr pc : Bool) (r : Req) (bodySent : Bool)
+    (addrs : List Nat) (prime : Bool) (faults : List Fault) (hm : r.safe = false ∧ r.idem = false)
+    (hno : ∀ f ∈ faults, ∀ st, f.replyStatus = some st → isReforwardableStatus (cfgOf maxTries onerr pc) st = false) :
+    dispatches (scenario (cfgOf maxTries onerr pc) r bodySent addrs prime faults).2 ≤ 1 :=
+  scenario_at_most_once _ r bodySent addrs prime faults hm
+    (reforwardable_statuses_are_errors maxTries onerr pc 200 (by omega)) hno
 
 /-! ### non-vacuity -/
 
